@@ -33,7 +33,8 @@ def _recheck(run):
 CHECK = {
     "suites": [suite("schedules", "c05", 800, 8000, stdin=True, timeout={"quick": 600, "thorough": 2400})],
     "extra": [_recheck],
-    "lean_sources": ["ClusterVerif/Model/C05.lean", "ClusterVerif/Spec/C05.lean", "ClusterVerif/Lemmas/C05.lean"],
+    "gen": [{"pkg": "extract_c05", "out": "lean/ClusterVerif/Gen/C05.lean"}],
+    "lean_sources": ["ClusterVerif/Model/C05Source.lean", "ClusterVerif/Gen/C05.lean", "ClusterVerif/Model/C05.lean", "ClusterVerif/Spec/C05.lean", "ClusterVerif/Lemmas/C05.lean"],
     "rule": "gated schedules on the real stateless tracker: 0-40 scripted actions (track / untrack / recover / recoverAll, daemon applies / answers nil / "
             "answers an error for a parked call — the oldest of the cid or specifically its Pin / Unpin call —, daemon loses a pin, an answer racing with an instruction) over 3-4 CIDs with local / everywhere / "
             "cluster-dag / remote / remote-without-allocations / meta pins, recursive and direct, 3 option variants; queue size 1-3, 1-3 pin workers; "
@@ -60,5 +61,5 @@ META = {
             "model, and the Lean property clauses are evaluated on the implementation's own observations.",
     "note": "Trusted: Lean kernel, hand-written model/spec, the gated daemon and stable-point detection of the harness. The suspected defect 'a re-track with another mode "
             "is deduplicated' is real behaviour but ends in pin_error (Status asks the daemon for the recorded mode) and is repaired by recover: no finding.",
-    "technique": "Lean 4 inductive invariant over an LTS + schedule-level differential correspondence against a gated daemon",
+    "technique": "regenerated source text of the anchored functions checked against the transcribed snapshot (rfl) + Lean 4 inductive invariant over an LTS + schedule-level differential correspondence against a gated daemon",
 }
